@@ -95,3 +95,8 @@ func verifObserveString(label string, s string) {
 }
 func verifQuiesce()       {}
 func verifSetBudget(n int) {}
+
+// verifTerminates: natively a watchdog; the replay driver treats a hang as reproduction.
+func verifTerminates(budget int, label string) {
+	fmt.Printf("VERIF-TERMINATES %s\n", label)
+}
